@@ -29,7 +29,12 @@ CASES = [("pos.rs", None), ("neg.rs", "E0277"), ("neg2.rs", "E0451")]
 def run_all(repo=None):
     repo = repo or facts.REPO
     th = facts.tree_hash(repo)
-    cache = os.path.join(facts.CACHE, "%s-witness.json" % th)
+    import hashlib
+    hw = hashlib.sha256()
+    for fn_ in [os.path.abspath(__file__)] + [os.path.join(WDIR, c[0]) for c in CASES]:
+        with open(fn_, "rb") as f_:
+            hw.update(f_.read())
+    cache = os.path.join(facts.CACHE, "%s-witness-%s.json" % (th, hw.hexdigest()[:10]))
     if os.path.exists(cache):
         with open(cache) as f:
             return json.load(f)
@@ -46,7 +51,19 @@ def run_all(repo=None):
         for k in ("RUSTC_WORKSPACE_WRAPPER", "RUSTFLAGS", "RUSTC_WRAPPER"):
             env.pop(k, None)
         for src, want in CASES:
-            shutil.copy(os.path.join(WDIR, src), os.path.join(d, "lib.rs"))
+            text = open(os.path.join(WDIR, src)).read()
+            if src == "neg2.rs":
+                # the literal names the generator's private fields as they are called today (a renamed field must still be
+                # reported as private, E0451, not as unknown)
+                try:
+                    fx = facts.load("rand_xoshiro", repo=repo)
+                    adt = next(a for a in fx["adts"] if a["path"].endswith("::Xoshiro256PlusPlus"))
+                    lit = ", ".join("%s: Default::default()" % f["name"] for f in adt["variants"][0]["fields"])
+                    text = text.replace("{ s: [0; 4] }", "{ %s }" % lit)
+                except Exception:
+                    pass
+            with open(os.path.join(d, "lib.rs"), "w") as f:
+                f.write(text)
             p = subprocess.run(["cargo", "check", "--offline", "--lib", "--message-format=json"], cwd=d, env=env,
                                stdout=subprocess.PIPE, stderr=subprocess.PIPE, text=True)
             codes = []
